@@ -520,6 +520,7 @@ func runScalars(raw json.RawMessage, seed int64, rec *Rec) {
 		}
 		rec.Add(E("result", "ok", err == nil, "code", codeOf(err), "closed", closed.Load(), "stuck", stuck))
 	case "recvfail_live":
+		hend := make(chan string, 1)
 		// a bidi call whose handler answers the first message and then waits for the client; the client cannot take the
 		// answer (it is above its read limit): Receive reports that and RETURNS, although the call is still alive --
 		// then the program closes its two sides in order (C14 "every API call returns in bounded time")
@@ -532,7 +533,13 @@ func runScalars(raw json.RawMessage, seed int64, rec *Rec) {
 			}
 			for {
 				if _, err := bs.Receive(); err != nil {
-					return nil // (drained: the client closed its side, or gave up)
+					// (drained: the client closed its side -- a clean end --, or gave up -- anything but a clean end)
+					if errors.Is(err, io.EOF) {
+						hend <- "eof"
+					} else {
+						hend <- "error"
+					}
+					return nil
 				}
 			}
 		})
@@ -553,7 +560,16 @@ func runScalars(raw json.RawMessage, seed int64, rec *Rec) {
 		}
 		codes := []int{}
 		stuckAt := ""
-		for _, op := range ops {
+		handlerSaw := "none"
+		for i, op := range ops {
+			if i == 2 {
+				// the call has failed on the client (Receive reported it) while its request side was open: what does the
+				// handler's pending Receive make of that?  Not a clean end (C04): the client never closed its side.
+				select {
+				case handlerSaw = <-hend:
+				case <-time.After(3 * time.Second):
+				}
+			}
 			ch := make(chan opres, 1)
 			go func() { ch <- op() }()
 			select {
@@ -570,7 +586,7 @@ func runScalars(raw json.RawMessage, seed int64, rec *Rec) {
 		}
 		stop()
 		srv.Close()
-		rec.Add(E("result", "codes", codes, "stuck_at", stuckAt))
+		rec.Add(E("result", "codes", codes, "stuck_at", stuckAt, "hend", handlerSaw))
 	case "errmeta_limit":
 		// a handler fails with metadata and a long message; the client's read limit is smaller than the error payload:
 		// whatever code the client reports, the handler's metadata is in the error (C11 "on failure at least in the
